@@ -42,11 +42,17 @@ CORE = ["cmd_add", "param_type", "ret_type", "field_add", "serde_rename", "serde
 SAFE = ["cmd_add", "param_type", "ret_type", "field_add", "enum_variant", "channel", "mode", "param_case"]
 
 
-def base_desc(mode, viz=False):
+def base_desc(mode, viz=False, maps=False):
     d = C.base_project()
     d["cfg"]["validation_library"] = mode
     d["cfg"]["visualize_deps"] = bool(viz)
+    if maps:
+        d["cfg"]["type_mappings"] = {"DateTime<Utc>": "string"}
     return d
+
+
+def case_base(case):
+    return base_desc(case["base"], case.get("viz"), case.get("maps"))
 
 
 def sched_of(desc):
@@ -56,11 +62,11 @@ def sched_of(desc):
 
 def run_history(case):
     """Run one history through the real tool. Returns (model sexp, [per-run observation])."""
-    desc = base_desc(case["base"], case.get("viz"))
+    desc = case_base(case)
     steps = [["run", sched_of(desc), False, None]]
     obs = []
     with vlib.Sandbox("c08h") as sb:
-        w = C.World(sb, case["entry"])
+        w = C.World(sb, case["entry"], case.get("conf", "cfile"))
         w.set_desc(desc)
 
         def observe(r):
@@ -82,7 +88,7 @@ def run_history(case):
                 steps.append(["set", C.sx_project(desc), C.sx_cfg(desc["cfg"])])
             steps.append(["run", sched_of(desc), False, None])
             obs.append(observe(w.run()))
-    base = base_desc(case["base"], case.get("viz"))
+    base = case_base(case)
     return sx([C.sx_project(base), C.sx_cfg(base["cfg"]), steps]), obs, desc
 
 
@@ -140,12 +146,12 @@ def eval_histories(cases):
 # ---- partition test -------------------------------------------------------------------------------------
 
 def run_partition(case):
-    base = base_desc(case["base"])
+    base = case_base(case)
     ed = C.apply_edit(base, case["edit"])
     hashes = []
     for d in (base, ed):
         with vlib.Sandbox("c08q") as sb:
-            w = C.World(sb, case["entry"])
+            w = C.World(sb, case["entry"], case.get("conf", "cfile"))
             w.set_desc(d)
             w.run()
             hashes.append(w.cache_record())
@@ -233,9 +239,39 @@ def history_cases(tier, rng):
     return cases
 
 
+# every hashed configuration value on its own: library, a mapping's target, adding/removing a mapping,
+# parameter case, field case, include_private (+ visualize_deps, unhashed)
+CFG_EDITS = ["mode", "type_mapping", "map_target", "include_private", "param_case", "field_case", "visualize"]
+# plugins.typegen of tauri.conf.json carries no naming-case keys on the pinned tree (C19-5)
+TAURI_CFG_EDITS = [e for e in CFG_EDITS if e not in ("param_case", "field_case")]
+
+
+def cfg_edits(conf):
+    return CFG_EDITS if conf == "cfile" else TAURI_CFG_EDITS
+
+
 def partition_cases():
-    return [{"entry": entry, "base": mode, "edit": e} for entry in ("cli", "build") for mode in ("none", "zod")
-            for e in sorted(C.EDITS)]
+    cases = [{"entry": entry, "base": mode, "edit": e} for entry in ("cli", "build") for mode in ("none", "zod")
+             for e in sorted(C.EDITS)]
+    for entry in ("cli", "build"):
+        for conf in ("cfile", "tauri"):
+            for maps in (False, True):
+                for e in cfg_edits(conf):
+                    cases.append({"entry": entry, "base": "none", "edit": e, "conf": conf, "maps": maps})
+    return cases
+
+
+def config_histories():
+    """all sequences of length <= 2 over the configuration-value edits, through typegen.json / -c and through
+    tauri.conf.json, from a base without and with a type mapping"""
+    cases = []
+    for entry in ("cli", "build"):
+        for conf in ("cfile", "tauri"):
+            for maps in (False, True):
+                for n in (1, 2):
+                    for seq in itertools.product(cfg_edits(conf), repeat=n):
+                        cases.append({"entry": entry, "base": "none", "conf": conf, "maps": maps, "ops": list(seq)})
+    return cases
 
 
 def distribution(cases):
@@ -261,7 +297,7 @@ def run(rep):
     outs, oo = eval_histories(witnesses() + regressions("C08"))
     rep.add("corpus", outs)
     rep.add("partition", eval_partition(partition_cases()))
-    cases = history_cases(rep.tier, rng)
+    cases = config_histories() + history_cases(rep.tier, rng)
     rep.extra["history_distribution"] = distribution(cases)
     total_oo = oo
     for i in range(0, len(cases), 400):
